@@ -1,4 +1,4 @@
 From Coq Require Extraction ExtrOcamlBasic.
 From Wz Require Import lib.Bytes lib.ExtractBase C14.LibPath C14.Gen C14.Model.
 Extraction Language OCaml.
-Extraction "C14/model_extracted.ml" force_types normpath posix_join isabs base_dir safe_join inside secure_core shared_candidates.
+Extraction "C14/model_extracted.ml" force_types normpath posix_join isabs base_dir safe_join inside secure_core secure_core_os shared_candidates shared_candidates_all.
